@@ -64,6 +64,33 @@ class _FakePool:
         _FakePool.packs = res
         return res
 
+    # the other Pool methods, with their own order contracts (an implementation that switches to one of them is
+    # then aggregated in the order that method really delivers)
+    def imap(self, func, tasks, chunksize=1):
+        return iter(self.map(func, tasks))
+
+    def imap_unordered(self, func, tasks, chunksize=1):
+        idx = list(range(len(tasks)))
+        _FakePool.order_rng.shuffle(idx)
+        res = [None] * len(tasks)
+        out = []
+        for i in idx:
+            res[i] = func(tasks[i])
+            out.append(res[i])
+        _FakePool.packs = out          # delivered (= completion) order
+        return iter(out)
+
+    def map_async(self, func, tasks, chunksize=None):
+        r = self.map(func, tasks)
+
+        class _R:
+            def get(self, timeout=None):
+                return r
+        return _R()
+
+    def starmap(self, func, tasks):
+        return self.map(lambda a: func(*a), tasks)
+
 
 def _opts(rng):
     call = {}
